@@ -31,7 +31,7 @@ def main():
     patch, demo = sys.argv[1], sys.argv[2].rstrip("/")
     runtxt = os.path.join(demo, "run.txt")
     txt = open(runtxt).read()
-    m = re.search(r"/tmp/wt2?_C\d+", txt)
+    m = re.search(r"/tmp/wt\d?_C\d+", txt)
     orig = m.group(0) if m else "/tmp/wt_NONE"
     wt = tempfile.mkdtemp(prefix="cm_", dir="/tmp")
     os.rmdir(wt)
